@@ -624,7 +624,128 @@ def take_origins(src):
     return None
 
 
-FAMILIES = {"loader": loader_family, "dumper": dumper_family, "literal": literal_family}
+def hostile_family(tier, seed):
+    """field ids that coincide with template identifiers / builtins / non-ASCII, keys with quotes, backslashes,
+    newlines, braces, dollars and code fragments"""
+    from adaptix._internal.definitions import DebugTrail
+    from adaptix._internal.model_tools.definitions import (
+        DefaultValue, InputField, InputShape, NoDefault, OutputField, OutputShape, Param, ParamKind, create_attr_accessor,
+        create_key_accessor,
+    )
+    from adaptix._internal.morphing.model.basic_gen import get_skipped_fields
+    from adaptix._internal.morphing.model.crown_definitions import (
+        ExtraCollect, ExtraForbid, ExtraKwargs, ExtraSkip, InpDictCrown, InpFieldCrown, InpListCrown, InputNameLayout,
+        OutDictCrown, OutFieldCrown, OutListCrown, OutputNameLayout,
+    )
+    from adaptix._internal.morphing.model.dumper_gen import BuiltinModelDumperGen
+    from adaptix._internal.morphing.model.loader_gen import BuiltinModelLoaderGen, ModelLoaderProps
+    from adaptix._internal.special_cases_optimization import with_default_clause
+
+    def constructor(*a, **kw):
+        raise AssertionError
+    tag(constructor, "constructor")
+    ID_SETS = [
+        ["data", "errors", "value"], ["getter", "sentinel", "constructor"], ["result", "extra", "key"],
+        ["known_keys", "has_unexpected_error", "e"], ["class_", "\u0438\u043c\u044f", "loader_a"], ["packed_fields", "opt_fields", "f_a"],
+        ["append_trail", "TypeLoadError", "len"], ["model_identity", "required_keys", "set"],
+    ]
+    KEY_SETS = [
+        ["quo'te", 'dq"uote', "back\\slash"], ["new\nline", "{brace}", "$dollar"], ["#hash", "'); import os #", "x\\"],
+        ["\r\n", "tab\t", "{0}{1}"], ["%s", "\u00e9\u00e8", ""],
+    ]
+    POL = {"skip": ExtraSkip(), "forbid": ExtraForbid(), "collect": ExtraCollect()}
+    modes = [(dt, sc) for dt in (DebugTrail.DISABLE, DebugTrail.FIRST, DebugTrail.ALL) for sc in (True,)]
+    combos = [(ids, keys) for ids in ID_SETS for keys in KEY_SETS[:2]] + [(ID_SETS[0], keys) for keys in KEY_SETS[2:]]
+    for ids, keys in combos:
+        kinds = ["R", "DV", "O"]
+        spec = [(fid, k, "W" if k == "O" else "K", fid) for fid, k in zip(ids, kinds)]
+        for cname, pol in (("flat", "forbid"), ("nested", "collect"), ("list", "skip")):
+            if cname == "flat":
+                cj = {"t": "dict", "map": {k: {"t": "field", "id": i} for k, i in zip(keys, ids)}, "extra": pol}
+            elif cname == "nested":
+                cj = {"t": "dict", "map": {keys[0]: {"t": "field", "id": ids[0]},
+                                           keys[1]: {"t": "dict", "map": {keys[2]: {"t": "field", "id": ids[1]},
+                                                                         keys[0]: {"t": "field", "id": ids[2]}}, "extra": pol}},
+                      "extra": pol}
+            else:
+                cj = {"t": "dict", "map": {keys[0]: {"t": "list", "map": [{"t": "field", "id": ids[0]}], "extra": "skip"},
+                                           keys[1]: {"t": "field", "id": ids[1]}, keys[2]: {"t": "field", "id": ids[2]}},
+                      "extra": "skip"}
+
+            def build(c):
+                if c["t"] == "dict":
+                    return InpDictCrown({k: build(v) for k, v in c["map"].items()}, extra_policy=POL[c["extra"]])
+                if c["t"] == "list":
+                    return InpListCrown([build(v) for v in c["map"]], extra_policy=POL[c["extra"]])
+                return InpFieldCrown(c["id"])
+
+            def build_out(c):
+                if c["t"] == "dict":
+                    return OutDictCrown({k: build_out(v) for k, v in c["map"].items()}, sieves={})
+                if c["t"] == "list":
+                    return OutListCrown([build_out(v) for v in c["map"]])
+                return OutFieldCrown(c["id"])
+            move = "kwargs" if pol == "collect" else None
+            for dt, sc in modes:
+                # loader
+                try:
+                    fields, params = [], []
+                    for fid, k, pk, pname in spec:
+                        fields.append(InputField(id=fid, type=int, default=DefaultValue(7) if k == "DV" else NoDefault(),
+                                                 is_required=(k == "R"), metadata=MappingProxyType({}), original=None))
+                        params.append(Param(field_id=fid, name=pname, kind=ParamKind.KW_ONLY if pk == "W" else ParamKind.POS_OR_KW))
+                    from adaptix._internal.model_tools.definitions import ParamKwargs
+                    shape = InputShape(fields=tuple(fields), params=tuple(params), kwargs=ParamKwargs(int) if move else None,
+                                       constructor=constructor, overriden_types=frozenset())
+                    layout = InputNameLayout(crown=build(cj), extra_move=ExtraKwargs() if move else None)
+                    loaders = {}
+                    for fid in ids:
+                        def ld(data):
+                            raise AssertionError
+                        tag(ld, f"loader:{fid}")
+                        _KEEP.append(ld)
+                        loaders[fid] = ld
+                    gen = BuiltinModelLoaderGen(shape=shape, name_layout=layout, debug_trail=dt, strict_coercion=sc,
+                                                field_loaders=loaders, skipped_fields=get_skipped_fields(shape, layout),
+                                                model_identity="Model", props=ModelLoaderProps())
+                    src, ns = gen.produce_code("model_loader")
+                    emit({"kind": "loader", "shape_name": "hostile:" + ",".join(ids), "crown_name": cname,
+                          "fields": [{"id": s[0], "kind": s[1], "param_kind": s[2], "param": s[3]} for s in spec],
+                          "crown": cj, "extra_move": move, "debug_trail": dt.name, "strict": sc, "skipped": [], "as_is": [],
+                          "source": src, "origins": take_origins(src), "namespace": {k: describe(v) for k, v in ns.items()}})
+                except Exception as e:
+                    emit({"kind": "loader", "error": f"{type(e).__name__}: {e}", "shape_name": "hostile:" + ",".join(ids),
+                          "crown_name": cname, "debug_trail": dt.name, "trace": traceback.format_exc()[-500:]})
+                # dumper
+                try:
+                    ofields = []
+                    for fid, k, pk, pname in spec:
+                        acc = create_attr_accessor(fid, is_required=(k != "O"))
+                        ofields.append(OutputField(id=fid, type=int, default=NoDefault(), metadata=MappingProxyType({}),
+                                                   original=None, accessor=acc))
+                    oshape = OutputShape(fields=tuple(ofields), overriden_types=frozenset())
+                    ocj = json.loads(json.dumps(cj))
+                    olayout = OutputNameLayout(crown=build_out(ocj), extra_move=None)
+                    dumpers = {}
+                    for fid in ids:
+                        def dp(data):
+                            raise AssertionError
+                        tag(dp, f"dumper:{fid}")
+                        _KEEP.append(dp)
+                        dumpers[fid] = dp
+                    gen = BuiltinModelDumperGen(shape=oshape, name_layout=olayout, debug_trail=dt, fields_dumpers=dumpers,
+                                                model_identity="Model")
+                    src, ns = gen.produce_code("model_dumper")
+                    emit({"kind": "dumper", "shape_name": "hostile:" + ",".join(ids), "crown_name": cname,
+                          "fields": [{"id": s[0], "kind": {"R": "R", "DV": "R", "O": "O"}[s[1]]} for s in spec],
+                          "crown": ocj, "extra_move": None, "debug_trail": dt.name, "as_is": [],
+                          "source": src, "origins": take_origins(src), "namespace": {k: describe(v) for k, v in ns.items()}})
+                except Exception as e:
+                    emit({"kind": "dumper", "error": f"{type(e).__name__}: {e}", "shape_name": "hostile:" + ",".join(ids),
+                          "crown_name": cname, "debug_trail": dt.name, "trace": traceback.format_exc()[-500:]})
+
+
+FAMILIES = {"loader": loader_family, "dumper": dumper_family, "literal": literal_family, "hostile": hostile_family}
 
 
 def main():
